@@ -43,12 +43,22 @@ def run(A, R: Report, thorough: bool):
         if var is None:
             R.violation('R18.1', name, key_of('anonymous-handler', src(a)), 'handler attached without keeping a reference: it can never be removed', where=where(fdata, a))
             continue
+        # names that hold the handler: the local itself and, when the add sits in an inlined helper that returns it,
+        # the caller's local that receives the helper's result
+        names = {var}
+        own = owner_of(A, fdata, a)
+        if own is not fdata and any(isinstance(r, ast.Return) and isinstance(r.value, ast.Name) and r.value.id == var for r in A.typer.own_nodes(own)):
+            for n_, o_, sites in A.nodes_with_sites(fdata):
+                if n_ is a and sites:
+                    par = getattr(sites[-1], '_parent', None)
+                    if isinstance(par, ast.Assign) and len(par.targets) == 1 and isinstance(par.targets[0], ast.Name):
+                        names.add(par.targets[0].id)
         removes = [n.id for n in cfg.nodes.values() if n.kind == 'stmt' and n.ast is not None and any(
-            isinstance(c, ast.Call) and isinstance(c.func, ast.Attribute) and c.func.attr == 'removeHandler' and c.args and src(c.args[0]) == var
+            isinstance(c, ast.Call) and isinstance(c.func, ast.Attribute) and c.func.attr == 'removeHandler' and c.args and src(c.args[0]) in names
             and src(c.func.value) == src(a.func.value) for c in ast.walk(n.ast))]
-        # branch outcomes that are infeasible once `var` holds the acquired handler
-        infeasible = [n.id for n in cfg.nodes.values() if n.kind == 'edge' and (
-            (src(n.ast) == f'{var} is not None' and n.label == 'F') or (src(n.ast) == f'{var} is None' and n.label == 'T') or (src(n.ast) == var and n.label == 'F'))]
+        # branch outcomes that are infeasible once the name holds the acquired handler
+        infeasible = [n.id for n in cfg.nodes.values() if n.kind == 'edge' and any(
+            (src(n.ast) == f'{v_} is not None' and n.label == 'F') or (src(n.ast) == f'{v_} is None' and n.label == 'T') or (src(n.ast) == v_ and n.label == 'F') for v_ in names)]
         for an in cfg_nodes_for(cfg, a):
             starts = normal_succ(cfg, an.id)
             reassigned = any(isinstance(cfg.nodes[d].ast, ast.Assign) and any(src(t) == var for t in cfg.nodes[d].ast.targets)
